@@ -39,9 +39,12 @@ def run_check(prop: str, thorough: bool, root=None, overlay=None, quiet=False, w
             v = run_all([prop], root=A.root, verbose=False)
             from .selftest import run_seeded
             sd = run_seeded([prop], root=A.root, verbose=False)
+            from .selftest import run_benign
+            bn = run_benign(props=[prop], root=A.root, verbose=False)
             R.validation = {'seeded_breaks': v['mutants'], 'reported': v['killed'], 'missed': v['missed'], 'benign_variants': v['benign'], 'silent': v['silent'],
                             'false_alarms': v['false_alarms'], 'operators_no_longer_applicable': v['not_applicable'], 'errors': v['errors'], 'wall_s': v['wall_s'],
                             'independent_seeded_changes': sd,
+                            'independent_benign_refactorings': {'runs': bn['runs'], 'silent': bn['silent'], 'alarms': bn['alarms'], 'not_applicable': bn['not_applicable']},
                             'note': 'each variant is an in-memory edit of the current /repo sources analysed by the same check; results are evidence about the checker, not about the property'}
         if not write:
             return _dry_finish(R), R
